@@ -276,3 +276,92 @@ def is_commensurate(ph, qq, tol=1e-9):
     M = supercell_in_prim(ph)
     v = M @ np.asarray(qq)
     return np.abs(v - np.rint(v)).max() < tol
+
+
+# --------------------------------------------------------------------------
+# space-group operations as index maps on the implementation's tables (C03, point-group clause)
+# --------------------------------------------------------------------------
+
+def sym_maps(ph, T, rot, trans, tol=1e-6):
+    """Index maps (pi, kap, sig, ...) of the operation x -> rot x + trans (primitive fractional coordinates) on the
+    tables `T`, or None when the operation does not map the supercell lattice onto itself.  Raises ValueError when
+    the operation preserves the supercell but an atom or a stored vector has no image in the tables."""
+    sc, pc = ph.supercell, ph.primitive
+    M = supercell_in_prim(ph).astype(float)
+    Minv = np.linalg.inv(M)
+    rot = np.array(rot, dtype=float)
+    img_lat = (rot @ M.T).T @ Minv  # rows: images of the supercell lattice vectors, in supercell coordinates
+    if np.abs(img_lat - np.rint(img_lat)).max() > tol:
+        return None
+    xs = sc.scaled_positions @ M
+    numbers = np.array(sc.numbers)
+    p2s, s2pp = T["p2s"], T["s2pp"]
+    npa, ns = T["np"], T["ns"]
+
+    def find(y, z):
+        d = (y[None, :] - xs) @ Minv
+        ok = (np.abs(d - np.rint(d)).max(axis=1) < tol) & (numbers == z)
+        idx = np.nonzero(ok)[0]
+        if len(idx) != 1:
+            raise ValueError("image of an atom is not a unique supercell atom")
+        return int(idx[0])
+
+    pi = np.zeros(npa, dtype=int)
+    kap = np.zeros((npa, ns), dtype=int)
+    for i in range(npa):
+        y0 = rot @ xs[p2s[i]] + trans
+        k0 = find(y0, numbers[p2s[i]])
+        pi[i] = s2pp[k0]
+        d = xs[p2s[pi[i]]] - y0
+        if np.abs(d - np.rint(d)).max() > tol:
+            raise ValueError("image of a primitive atom is not a lattice translate of a primitive atom")
+        for k in range(ns):
+            kap[i, k] = find(rot @ xs[k] + trans + d, numbers[k])
+    if sorted(pi.tolist()) != list(range(npa)) or any(sorted(kap[i].tolist()) != list(range(ns)) for i in range(npa)):
+        raise ValueError("atom maps are not permutations")
+    pinv = np.argsort(pi)
+    kinv = np.array([np.argsort(kap[i]) for i in range(npa)])
+    sv, mu = T["svecs"], T["multi"]
+    sig = -np.ones(len(sv), dtype=int)
+    for i in range(npa):
+        for k in range(ns):
+            m, ad = mu[k, i]
+            m2, ad2 = mu[kap[i, k], pi[i]]
+            tgt = sv[ad2:ad2 + m2]
+            for l in range(m):
+                w = rot @ sv[ad + l]
+                hit = np.nonzero(np.abs(tgt - w[None, :]).max(axis=1) < tol)[0]
+                if len(hit) != 1:
+                    raise ValueError("image of a stored shortest vector of pair (%d,%d) is not stored for pair (%d,%d)"
+                                     % (k, i, kap[i, k], pi[i]))
+                sig[ad + l] = ad2 + int(hit[0])
+    if sorted(sig.tolist()) != list(range(len(sv))):
+        raise ValueError("stored vectors are not permuted")
+    sinv = np.argsort(sig)
+    L = pc.cell
+    Q = L.T @ rot @ np.linalg.inv(L.T)
+    return dict(pi=pi, pinv=pinv, kap=kap, kinv=kinv, sig=sig, sinv=sinv, Q=Q, rot=np.rint(rot).astype(int),
+                rq=np.linalg.inv(rot).T)
+
+
+def svinv_line(T, compact, m):
+    npa, ns = T["np"], T["ns"]
+    if compact:
+        nf, p2s, s2p = npa, np.arange(npa), T["s2pp"]
+    else:
+        nf, p2s, s2p = ns, T["p2s"], T["s2p"]
+    return "svinv %d %d %d %d %s %s %s %s %s %s %s %s %s" % (
+        npa, nf, ns, len(T["svecs"]), _ints(p2s), _ints(s2p), _ints(T["multi"]), _ints(m["pi"]), _ints(m["pinv"]),
+        _ints(m["kap"]), _ints(m["kinv"]), _ints(m["sig"]), _ints(m["sinv"]))
+
+
+def svdev_line(T, m, tol=1e-9):
+    return "svdev %d %s %s %s %s" % (len(T["svecs"]), _ints(m["rot"]), _ints(m["sig"]), _rats(T["svecs"]), Q(tol))
+
+
+def gamma_matrix(m, npa):
+    """Gamma[(pi i, a), (i, a')] = Q[a, a']"""
+    g = np.zeros((3 * npa, 3 * npa))
+    for i in range(npa):
+        g[3 * m["pi"][i]:3 * m["pi"][i] + 3, 3 * i:3 * i + 3] = m["Q"]
+    return g
